@@ -92,7 +92,7 @@ def step (d : DS) (l : String) : DS × String :=
       | none => (d, "bad-op")
     | "top", [n] =>
       match intOf? n with
-      | some n => (d, canonTop (sortBy qfBefore (freqTable d.h.entries)) (effLimit n))
+      | some n => (d, canonTop (sortBy qfBefore (freqTable d.h.entries)) (effLimitTop n))
       | none => (d, "bad-op")
     | "stats", [] =>
       let st := stats d.h
